@@ -1608,20 +1608,40 @@ func ruleC11OneWakePerClient(c *Ctx) {
 					continue
 				}
 				bo, ok := ifi.Cond.(*ssa.BinOp)
-				if !ok || bo.Op != token.LSS {
+				if !ok || (bo.Op != token.LSS && bo.Op != token.GTR) {
 					continue
 				}
 				phi, isPhi := bo.X.(*ssa.Phi)
-				_, isParam := bo.Y.(*ssa.Parameter)
-				if !isPhi || !isParam || len(phi.Edges) != 2 {
+				if !isPhi || len(phi.Edges) != 2 {
 					continue
+				}
+				// counting up to the parameter, or counting the parameter down to 0
+				step := int64(1)
+				if bo.Op == token.LSS {
+					if _, isParam := bo.Y.(*ssa.Parameter); !isParam {
+						continue
+					}
+				} else {
+					if z, isC := constInt(bo.Y); !isC || z != 0 {
+						continue
+					}
+					fromParam := false
+					for _, e := range phi.Edges {
+						if _, isParam := e.(*ssa.Parameter); isParam {
+							fromParam = true
+						}
+					}
+					if !fromParam {
+						continue
+					}
+					step = -1
 				}
 				n++
 				key := fnName(fn) + ":wake-loop"
 				good := false
 				for _, e := range phi.Edges {
 					t := normLin(e)
-					if t.base == ssa.Value(phi) && t.k == 1 {
+					if t.base == ssa.Value(phi) && t.k == step {
 						good = true
 					}
 				}
